@@ -634,6 +634,8 @@ def hidden_guards(prog, fn, bb):
                 continue
             if not g.reaches(s, bb):
                 continue
+            if s == bb and not g.reaches_strict(s, bb):
+                continue  # the block's own terminator comes after the site's statement (and is not on a cycle back to it)
             arms = [x for _, x in t['targets']] + [t['otherwise']]
             arms = [x for x in arms if fn.blocks[x]['term']['k'] != 'unreachable']
             if any(not g.reaches(x, bb) for x in arms):
